@@ -2065,7 +2065,10 @@ class FileBuilder:
                 FileBuilder._try_to_remove_file(cache_filename)
                 raise
             logger.info('Wrote cache file {:s}'.format(cache_filename))
-        except Exception:
+        except BaseException:
+            # This includes exceptions that are not subclasses of Exception,
+            # such as KeyboardInterrupt and SystemExit. We must roll back before
+            # FileBackups deletes the backups.
             self._is_finished_build = True
             self._roll_back(cache_file_created_dirs)
             raise
